@@ -1384,6 +1384,10 @@ def selftest():
         case("C15 return value", "Trace_CAbi", "Trace_CAbi_C15.cfg", "VIOLATION-C15", ev, 4, setf(["c", "ret"], lambda v: v - 1))
         case("C15 state after call", "Trace_CAbi", "Trace_CAbi_C15.cfg", "VIOLATION-C15", ev, 6, setf(["c", "state", "bytes", 3], lambda v: v ^ 1))
         case("C15 canary", "Trace_CAbi", "Trace_CAbi_C15.cfg", "VIOLATION-C15", ev, 3, setf(["c", "mem"], lambda v: False))
+        def both_views(e):
+            for side in ("c", "native"):
+                e[side]["state"]["view"]["oan"] = [x + 1 for x in e[side]["state"]["view"]["oan"]] or [13]
+        case("C15 both sides incoherent", "Trace_CAbi", "Trace_CAbi_C15.cfg", "VIOLATION-C15", ev, 1, both_views)
     import shutil
     if failures:
         for f in failures:
